@@ -355,6 +355,17 @@ func runC11(c *rt.Ctx) {
 			c11Decode(w, zero)
 			w.ClassN("length-sweep", 2)
 		}
+		// lengths that read 7 in a counter of 8 or 16 bits (and their neighbours), the valid record in front
+		for _, l := range []int{255, 256, 257, 262, 263, 264, 519, 775, 4103, 65535, 65536, 65542, 65543, 65544, 131079, 1<<24 + 7} {
+			long := make([]byte, l)
+			copy(long, c11Encode(2022, 6, 15))
+			c11Decode(w, long)
+			for i := 7; i < len(long); i++ {
+				long[i] = 0xff
+			}
+			c11Decode(w, long)
+			w.ClassN("length-sweep", 2)
+		}
 		c11Decode(w, nil)
 	})
 	c.Parallel("foreign-encodings", 0, func(w *rt.W) {
